@@ -6,7 +6,7 @@ from pv.ref.role import roles_for
 
 CONCEPTS = ['alpha', 'beta', 'b', 'i', '"a string"', '1', 'x-01', '"a~b"', 'c', 'want-01', '"(x / y)"', 'a', '_', '0',
             '\u00e9t\u00e9', '42nd', '---', '"\\"q\\""', '"#"', 'k']
-CONSTS = ['-', '5', '12345678901234567890', '"' + 'long string ' * 12 + '"', 'sym' * 20, '1.5', '"str"', '"a b(c)"', 'sym', '+', '"~1"', 'imperative', '0', '0.0', '"x : y"', '"a/b"',
+CONSTS = ['-', '_', '_2', '5', '12345678901234567890', '"' + 'long string ' * 12 + '"', 'sym' * 20, '1.5', '"str"', '"a b(c)"', 'sym', '+', '"~1"', 'imperative', '0', '0.0', '"x : y"', '"a/b"',
           '"# c"', 'http', "d'", '1,000', '^q', '"\\\\"', '-1', '1e3', 'mod', 'u\u2028w', '"t\u0085u"']
 AMR_ROLES = [':ARG0', ':ARG1', ':ARG2', ':mod', ':domain', ':op1', ':op2', ':op10', ':polarity', ':quant', ':time',
              ':location', ':part', ':name', ':consist-of', ':prep-on-behalf-of', ':poss', ':wiki', ':subset',
